@@ -59,6 +59,9 @@ func (r *Run) unop(fr *frame, instr *ssa.UnOp, x Value) Value {
 	case token.SUB:
 		switch x := x.(type) {
 		case *Term:
+			if x.S.K == SFP {
+				return mkApp(fpSort, "fp.neg", x)
+			}
 			return tBVNeg(x)
 		case F64:
 			return -x
@@ -90,6 +93,13 @@ func (r *Run) binop(op token.Token, t types.Type, x, y Value) Value {
 	case token.NEQ:
 		return tNot(r.eqVal(x, y))
 	}
+	// symbolic float64 arithmetic (one side may be a concrete F64)
+	if xt, ok := x.(*Term); ok && xt.S.K == SFP {
+		return r.fpBinop(op, xt, toFP(y))
+	}
+	if yt, ok := y.(*Term); ok && yt.S.K == SFP {
+		return r.fpBinop(op, toFP(x), yt)
+	}
 	switch x := x.(type) {
 	case *Term:
 		yt := y.(*Term)
@@ -112,6 +122,15 @@ func (r *Run) binop(op token.Token, t types.Type, x, y Value) Value {
 		case token.MUL:
 			return tBVBin("bvmul", x, yt)
 		case token.QUO, token.REM:
+			if info, ok := r.kr[x]; ok && yt.Const {
+				if op == token.QUO {
+					if t, ok := info.div[yt.Signed()]; ok {
+						return t
+					}
+				} else if t, ok := info.rem[yt.Signed()]; ok {
+					return t
+				}
+			}
 			// division by zero is a runtime panic
 			if !r.branch(tNot(tEq(yt, mkBV(w, 0)))) {
 				panic(targetPanic{v: r.runtimeErr("integer divide by zero"), msg: "integer divide by zero"})
@@ -224,6 +243,38 @@ func (r *Run) binop(op token.Token, t types.Type, x, y Value) Value {
 	panic(unsupported(fmt.Sprintf("binop %s on %T,%T", op, x, y)))
 }
 
+func toFP(v Value) *Term {
+	switch v := v.(type) {
+	case *Term:
+		return v
+	case F64:
+		return mkFP(float64(v))
+	}
+	panic(unsupported(fmt.Sprintf("float operand %T", v)))
+}
+
+func (r *Run) fpBinop(op token.Token, x, y *Term) Value {
+	switch op {
+	case token.ADD:
+		return tFPBin("fp.add", x, y)
+	case token.SUB:
+		return tFPBin("fp.sub", x, y)
+	case token.MUL:
+		return tFPBin("fp.mul", x, y)
+	case token.QUO:
+		return tFPBin("fp.div", x, y)
+	case token.LSS:
+		return tFPCmp("fp.lt", x, y)
+	case token.LEQ:
+		return tFPCmp("fp.leq", x, y)
+	case token.GTR:
+		return tFPCmp("fp.gt", x, y)
+	case token.GEQ:
+		return tFPCmp("fp.geq", x, y)
+	}
+	panic(unsupported("float op " + op.String()))
+}
+
 func (r *Run) fsymBin(op token.Token) Value {
 	switch op {
 	case token.ADD, token.SUB, token.MUL, token.QUO:
@@ -306,12 +357,18 @@ func (r *Run) eqVal(x, y Value) *Term {
 	case nil:
 		return mkBool(isNilish(y))
 	case *Term:
+		if x.S.K == SFP {
+			return tFPCmp("fp.eq", x, toFP(y))
+		}
 		return tEq(x, y.(*Term))
 	case FSym:
 		return r.fresh(boolSort, "fcmp")
 	case F64:
 		if _, ok := y.(FSym); ok {
 			return r.fresh(boolSort, "fcmp")
+		}
+		if yt, ok := y.(*Term); ok {
+			return tFPCmp("fp.eq", mkFP(float64(x)), yt)
 		}
 		return mkBool(x == y.(F64))
 	case Str:
@@ -487,6 +544,9 @@ func (r *Run) conv(tDst, tSrc types.Type, x Value) Value {
 			}
 			if isFloat(ud) {
 				if !t.Const {
+					if ud.(*types.Basic).Kind() == types.Float64 || ud.(*types.Basic).Kind() == types.UntypedFloat {
+						return tIntToFP(t, signed)
+					}
 					return FSym{}
 				}
 				if signed {
@@ -502,6 +562,17 @@ func (r *Run) conv(tDst, tSrc types.Type, x Value) Value {
 			}
 		}
 		if isFloat(us) {
+			if xt, ok := x.(*Term); ok && xt.S.K == SFP {
+				if isFloat(ud) {
+					if ud.(*types.Basic).Kind() == types.Float32 {
+						panic(unsupported("symbolic float64 to float32"))
+					}
+					return x
+				}
+				if wd, _, ok := isInt(ud); ok {
+					return tFPToInt(xt, wd)
+				}
+			}
 			if _, ok := x.(FSym); ok {
 				if isFloat(ud) {
 					return x
